@@ -9,7 +9,8 @@
     `raw`                  the whole physical store, key order, values run-length coded
     `binv <key> <start> <end> <off>…`  BITCOUNT key start end  next to the number of listed offsets in that byte range whose GETBIT is 1
     `bchk <key> <off> <0|1>`           GETBIT key off against the bit a SETBIT just wrote (skipped when the meta carries an expiry)
-  A Go panic in the apply path poisons the session (every later line answers `poisoned`), as in the executor.
+  The model has no panic outcome (the two Go panics of the bitmap code were repaired: fixes 0ad0963, d794a70); a `panic` /
+  `poisoned` answer of the executor is therefore a disagreement.
 -/
 import ZanVerif.Data.BitExec
 import Driver.DataKV
@@ -33,7 +34,6 @@ structure St where
   keys : List Bytes := []
   now : Int := 1750000000000000000
   pend : List Ent := []
-  poisoned : Bool := false
 
 /-- client key → (table, key part): model domain = table and key part non-empty, key within MaxKeySize -/
 def keyOf (key : Bytes) : Option (Bytes × Bytes) :=
@@ -44,15 +44,9 @@ def keyOf (key : Bytes) : Option (Bytes × Bytes) :=
     | none => none
   else none
 
-/-- the first line of the Go panic value, as the runner prints it -/
-def showPanic : Panic → String
-  | .sliceBounds a b => s!"runtime error: slice bounds out of range [{a}:{b}]"
-  | .sizeMismatch => "bitmap size mismatch"
-
 def showOut : BOut Int → String
   | .ok n => s!"int:{n}"
   | .err c => "err:" ++ c
-  | .panic p => "panic:" ++ showPanic p
 
 def showTtl (now : Int) : BOut Int → String
   | .ok n => if n > 0 then s!"ttlat:{n + Int.tdiv now 1000000000}" else s!"int:{n}"
@@ -102,7 +96,7 @@ def leader (st : St) (unchecked : Bool) (cmd : String) (key : Bytes) (rest : Lis
       | .local =>
         if (cmd == "set" && rest.length == 1) || (cmd == "del" && rest.isEmpty) then none else some "bad-op"
 
-/-- one log entry applied to the store: (store, keys, reply); a panic keeps the store (the session is poisoned) -/
+/-- one log entry applied to the store: (store, keys, reply) -/
 def applyEnt (st : St) (e : Ent) : St × String :=
   match keyOf e.key with
   | none => (st, "err:?")
@@ -137,10 +131,9 @@ def applyEnt (st : St) (e : Ent) : St × String :=
           ({ st with m := Z.Ref.del st.m (strK table rk) }, if (Z.Ref.get st.m (strK table rk)).isSome then "int:1" else "int:0")
         | _, _ => (st, "err:?")
 
-/-- the apply event: entries in log order; a panic answers `panic` for every entry and poisons the session -/
+/-- the apply event: entries in log order -/
 def flush (st : St) : St × List String :=
-  let (st', rs) := st.pend.foldl (fun (acc : St × List String) e => let (s, r) := applyEnt acc.1 e; (s, acc.2 ++ [r])) ({ st with pend := [] }, [])
-  if rs.any (·.startsWith "panic:") then ({ st' with poisoned := true }, rs.map (fun _ => "panic")) else (st', rs)
+  st.pend.foldl (fun (acc : St × List String) e => let (s, r) := applyEnt acc.1 e; (s, acc.2 ++ [r])) ({ st with pend := [] }, [])
 
 def writeLine (st : St) (unchecked : Bool) (ts : Int) (b : String) (args : List Bytes) : St × String :=
   match args with
@@ -222,12 +215,10 @@ def binv (st : St) (key : Bytes) (start stop : Int) (offs : List Int) : String :
   match keyOf key with
   | none => "bad-op"
   | some (table, rk) =>
-    match bitcount st.pol st.m st.now table rk start stop with
-    | .panic p => "panic:" ++ showPanic p
-    | bc =>
-      let inRange (o : Int) : Bool := decide (start ≤ Int.tdiv o 8) && (stop < 0 || decide (Int.tdiv o 8 ≤ stop))
-      let en := ((dedupInts offs).filter (fun o => inRange o && getbit st.pol st.m st.now table rk o == .ok 1)).length
-      s!"bc={showOut bc} en={en}"
+    let bc := bitcount st.pol st.m st.now table rk start stop
+    let inRange (o : Int) : Bool := decide (start ≤ Int.tdiv o 8) && (stop < 0 || decide (Int.tdiv o 8 ≤ stop))
+    let en := ((dedupInts offs).filter (fun o => inRange o && getbit st.pol st.m st.now table rk o == .ok 1)).length
+    s!"bc={showOut bc} en={en}"
 
 /-- `bchk`: the stored meta carries user data and no expiry → GETBIT must show the bit just written -/
 def bchk (st : St) (key : Bytes) (off : Int) (val : String) : String :=
@@ -251,7 +242,6 @@ def step (st : St) (line : String) : St × String :=
   | "open" :: fs => ({ pol := parsePol fs, now := Drv.DataKV.parseNow fs }, "ok")
   | ["end"] => ({}, "ok")
   | fs =>
-    if st.poisoned then (st, "poisoned") else
     match fs with
     | ["raw"] => (st, rawLine st)
     | "w" :: ts :: b :: hexargs =>
